@@ -6,6 +6,8 @@ CC = gcc
 OPT ?= -O1
 # instrumented code: libc entry points redirected to the simulator, text placed in its own section (crash classification)
 POSTPROC = objcopy --redefine-syms=redef.txt --rename-section .text=itext
+# scenario (harness) code goes to a section of its own: the runtime can tell who called it
+POSTPROC_SCEN = objcopy --redefine-syms=redef.txt --rename-section .text=stext
 RTFLAGS = -O2 -g -Wall -Wextra -Wno-unused-parameter -fno-omit-frame-pointer
 INSTR = -fsanitize=thread -U__SANITIZE_THREAD__ --param tsan-distinguish-volatile=1 \
 	--param tsan-instrument-func-entry-exit=0
@@ -60,17 +62,17 @@ $(BUILD)/u-%.o: $(REPO)/src/%.c $(REPO_DEPS) redef.txt
 	$(CC) $(URCUFLAGS) -c $< -o $@ && $(POSTPROC) $@
 
 $(BUILD)/s-glue-memb.o: scen/flavor_glue.c scen/flavor.h $(REPO_DEPS) redef.txt
-	$(CC) $(SCENFLAGS) -DGLUE_MEMB -c $< -o $@ && $(POSTPROC) $@
+	$(CC) $(SCENFLAGS) -DGLUE_MEMB -c $< -o $@ && $(POSTPROC_SCEN) $@
 $(BUILD)/s-glue-mb.o: scen/flavor_glue.c scen/flavor.h $(REPO_DEPS) redef.txt
-	$(CC) $(SCENFLAGS) -DGLUE_MB -c $< -o $@ && $(POSTPROC) $@
+	$(CC) $(SCENFLAGS) -DGLUE_MB -c $< -o $@ && $(POSTPROC_SCEN) $@
 $(BUILD)/s-glue-qsbr.o: scen/flavor_glue.c scen/flavor.h $(REPO_DEPS) redef.txt
-	$(CC) $(SCENFLAGS) -DGLUE_QSBR -c $< -o $@ && $(POSTPROC) $@
+	$(CC) $(SCENFLAGS) -DGLUE_QSBR -c $< -o $@ && $(POSTPROC_SCEN) $@
 $(BUILD)/s-glue-bp.o: scen/flavor_glue.c scen/flavor.h $(REPO_DEPS) redef.txt
-	$(CC) $(SCENFLAGS) -DGLUE_BP -c $< -o $@ && $(POSTPROC) $@
+	$(CC) $(SCENFLAGS) -DGLUE_BP -c $< -o $@ && $(POSTPROC_SCEN) $@
 $(BUILD)/s-uatomic-builtins.o: scen/uatomic.c $(wildcard scen/*.h) usim/usim.h $(REPO_DEPS) redef.txt
-	$(CC) $(SCENFLAGS) -DUAT_BUILTINS -DCONFIG_RCU_USE_ATOMIC_BUILTINS -c $< -o $@ && $(POSTPROC) $@
+	$(CC) $(SCENFLAGS) -DUAT_BUILTINS -DCONFIG_RCU_USE_ATOMIC_BUILTINS -c $< -o $@ && $(POSTPROC_SCEN) $@
 $(BUILD)/s-%.o: scen/%.c $(wildcard scen/*.h) usim/usim.h $(REPO_DEPS) redef.txt
-	$(CC) $(SCENFLAGS) -c $< -o $@ && $(POSTPROC) $@
+	$(CC) $(SCENFLAGS) -c $< -o $@ && $(POSTPROC_SCEN) $@
 
 $(BUILD)/usim: $(RT_OBJS) $(URCU_OBJS) $(SCEN_OBJS)
 	$(CC) -no-pie -g -o $@ $^ -lpthread
